@@ -206,8 +206,8 @@ def namesPadKey : List (Option Nat) → Bool
   | some n :: _ => (padKeyOfCode n).isSome
   | _ => false
 
-/-- well-formed items.  Numeric parameters that select a key, a modifier or a repeat count are below 2^31
-    (the decoder converts them with `atoi`; DESIGN §3). -/
+/-- well-formed items.  A repeat count is below 2^31 (it is reported as an `int`; larger counts are clamped by
+    the decoder).  Parameters of other control sequences are unbounded. -/
 def Item.wf : Item → Bool
   | .char b => b < 0x80 && b != 0x1B && b != 0x0D && b != 0x0A
   | .enter _ => true
@@ -217,7 +217,7 @@ def Item.wf : Item → Bool
   | .csi _ _ params final =>
     !isDigit final && final != 0x3B && final != 0x3F && final != 0x3E && final != 0x21 && final != 0x4D
     && !isKeyFinal final
-    && (final != 0x7E || (!namesPadKey params && (match params with | some n :: _ => n < 2147483648 | _ => true)))
+    && (final != 0x7E || !namesPadKey params)
   | .mouse _ _ x y => x ≤ 222 && y ≤ 222
 
 def seqOf (initiator : Byte) (i : Intro) (marker : Option Marker) (params : List (Option Nat)) (final : Byte) : CtrlSeq :=
